@@ -651,3 +651,85 @@ def check_mul_calls_no_long_division(ctx, res, config="all"):
     else:
         res.ok("R8-mul-no-long-division", "call-graph", {"entries": len(entries), "reachable_functions": len(reach)})
     res.clause("R8: no multiplication entry point reaches the multi-digit division (call-graph reachability, dev configuration incl. debug-only code)")
+
+
+# ------------------------------------------------------------------------------------------
+# mac3 accumulates: acc += b * c.  Nothing may overwrite digits of the accumulator.
+
+_ACC_SUBSLICE = ("index_mut", "split_at_mut", "deref_mut", "as_mut", "as_mut_slice", "borrow_mut", "split_first_mut", "split_last_mut", "get_mut", "unwrap")
+_ACC_OVERWRITE = ("copy_from_slice", "clone_from_slice", "fill", "fill_with", "swap_with_slice", "copy_within", "clear", "truncate", "swap")
+
+
+def _acc_derived(b, seed):
+    """locals that are (sub)slices of the accumulator parameter: moves, reborrows, range indexing, split_at_mut and friends"""
+    der = {seed}
+    changed = True
+    while changed:
+        changed = False
+        for _, _, s in b.stmts():
+            if s["k"] != "assign" or s["place"]["proj"] or s["place"]["local"] in der:
+                continue
+            rv = s["rv"]
+            src = None
+            if rv["k"] == "use" and rv["op"]["k"] != "const":
+                src = rv["op"]["place"]["local"]
+            elif rv["k"] == "ref":
+                src = rv["place"]["local"]
+            if src in der and ("&mut [" in (b.locals[s["place"]["local"]]["ty"] or "") or "(&mut [" in (b.locals[s["place"]["local"]]["ty"] or "")):
+                der.add(s["place"]["local"])
+                changed = True
+        for _, t in b.calls():
+            d = t.get("dest")
+            if d is None or d["proj"] or d["local"] in der or not t["args"]:
+                continue
+            a0 = core.op_place(t["args"][0])
+            if a0 is not None and a0["local"] in der and core.callee_name(t) in _ACC_SUBSLICE and "&mut [" in (b.locals[d["local"]]["ty"] or ""):
+                der.add(d["local"])
+                changed = True
+                continue
+            # a private helper that takes the accumulator window and hands a (narrower) window back
+            if (core.callee_fn(t) or {}).get("local") and "&mut [" in (b.locals[d["local"]]["ty"] or "") and any((core.op_place(a) or {}).get("local") in der for a in t["args"]):
+                der.add(d["local"])
+                changed = True
+    return der
+
+
+def check_mac3_accumulates(ctx, res, config="all"):
+    """mac3(acc, b, c) adds b*c into acc; its callers (the unbalanced split, Karatsuba, Toom-3 and mul3) rely on what acc
+    already holds being kept.  Every use of a (sub)slice of `acc` inside mac3 must therefore be an accumulation: a call that
+    overwrites slice contents (copy_from_slice, fill, ..) with an acc-derived receiver loses the digits that were there."""
+    facts = ctx.facts(config)
+    bodies = [b for b in facts.bodies if b.name == "mac3" and "multiplication" in b.path and b.kind != "Closure"]
+    if not bodies:
+        if config == "all":
+            res.fail(Finding("R8-anchor-lost", "mac3", "mac3 not found", file="src/biguint/multiplication.rs", line=0))
+        return
+    b = bodies[0]
+    der = _acc_derived(b, 1)
+    live = b.live_blocks()
+    n_uses = 0
+    bad = []
+    unknown = []
+    for i, t in b.calls():
+        if i not in live or not t["args"]:
+            continue
+        a0 = core.op_place(t["args"][0])
+        if a0 is None or a0["local"] not in der:
+            continue
+        nm = core.callee_name(t)
+        n_uses += 1
+        if nm in _ACC_OVERWRITE:
+            bad.append((t, nm))
+        elif nm in _ACC_SUBSLICE or (core.callee_fn(t) or {}).get("local") or nm in ("len", "is_empty", "iter", "deref", "as_ptr", "first", "last"):
+            continue
+        else:
+            unknown.append(nm)
+    for (t, nm) in bad:
+        res.fail(Finding("R8-acc-overwritten", "mac3|%s" % nm, "mac3 calls `%s` on a (sub)slice of its accumulator (line %s): the digits already accumulated there - by the first half of an unbalanced split, or by the caller - are overwritten instead of added to" % (nm, t["span"]["line"]), b, t["span"]["line"]))
+    if not bad:
+        res.ok("R8-acc-overwritten", "mac3", {"uses_of_acc_slices": n_uses, "acc_derived_locals": len(der)})
+    for nm in sorted(set(unknown)):
+        res.note("R8-acc-overwritten: mac3 hands a slice of its accumulator to `%s`, which this rule does not know - not decided" % nm)
+    if config == "all" and n_uses < 5:
+        res.fail(Finding("R8-anchor-lost", "mac3-acc-uses", "only %d uses of accumulator slices found in mac3 (floor 5)" % n_uses, file="src/biguint/multiplication.rs", line=0))
+    res.clause("R8-acc: inside mac3 no (sub)slice of the accumulator is the receiver of an overwriting slice operation (copy_from_slice, fill, ...): the product is added to what the accumulator holds")
